@@ -274,7 +274,7 @@ class Ctx:
             (rdir / "bad.json").write_text(json.dumps(b, indent=1))
             if replay_writer:
                 replay_writer(rdir, b)
-            (rdir / "cmd").write_text(f"./check {self.pid} --replay {rshow}\n")
+            (rdir / "cmd").write_text(f"VERIF_SEED={self.seed} ./check {self.pid} --tier {self.tier} --replay {rshow}\n")
             print(f"VIOLATION property={self.pid} replay={rshow}")
             print("  signature:", sk[:400])
             if b.get("what"):
